@@ -5,13 +5,17 @@ import "math/bits"
 // C35: mark-bit allocation is collision-free and reversible.
 // Sym: mask (all 2^32 masks).  Shape: k allocation calls (forked 0..K).
 
-// verifReachableState puts m into an arbitrary state reachable by allocations: i bits handed out
-// (i symbolic, 0..popcount).  The number<->mark mapping must depend on the mask only.
+// verifReachableState puts m into a state reachable by allocations, through the real allocation
+// calls only (no field is written): i single-bit allocations (i forked, 0..2), optionally followed by
+// one block allocation.  The number<->mark mapping must depend on the mask only.
 func verifReachableState(m *MarkBitsManager, pop int) {
-	i := int(verifU8("allocated"))
-	verifAssume(i <= pop)
-	m.numBitsAllocated = i
-	m.numFreeBits = pop - i
+	i := verifChoose("allocated", 3)
+	for k := 0; k < i; k++ {
+		_, _ = m.NextSingleBitMark()
+	}
+	if verifChoose("block-allocated", 2) == 1 {
+		_, _ = m.NextBlockBitsMark(2)
+	}
 }
 
 // VerifHarness_C35_alloc: k successive NextSingleBitMark calls on an arbitrary mask.
